@@ -5,6 +5,7 @@ import nvlib, gen_listing as GL, gen_src as S, lst_parse as LP
 
 ID = "C18"
 QUICK_K = 1      # the stream sizes below already give a quick tier of about a minute
+THOROUGH_K = 2   # ... and a thorough tier of about five minutes (x8 took 26 minutes)
 LEAN_MODULES = ["NakenVerif.Props.C18"]
 THEOREMS = ["NakenVerif.Listing." + t for t in (
     "dump_shows_exactly_the_data", "dump_true", "dump_complete_once", "dump_range_finite", "cpu_list_units_fit_dump",
